@@ -78,7 +78,15 @@ class CrateInfo:
                 k = L
                 while not re.search(r'\b(struct|enum|union)\s+(\w+)', lines[k]): k += 1
                 ty = re.search(r'\b(struct|enum|union)\s+(\w+)', lines[k]).group(2)
-                trait = {'EnumString': 'FromStr', 'IntoStaticStr': 'From', 'AsRefStr': 'AsRef', 'Display': 'Display'}.get(trait, trait)
+                if trait == 'IntoStaticStr':
+                    # strum: `impl From<Ty> for &'static str` and `impl From<&Ty> for &'static str` share one MIR name
+                    for k2, f2 in enumerate(fl):
+                        a0 = re.sub(r"'\w+ ", '', f2.arg_tys[0]) if f2.arg_tys else ty
+                        ent = (a0, [], 'str', name, k2)
+                        lst = self.trait_impls.setdefault(('str', 'From', meth), [])
+                        if ent not in lst: lst.append(ent)
+                    continue
+                trait = {'EnumString': 'FromStr', 'AsRefStr': 'AsRef', 'Display': 'Display'}.get(trait, trait)
                 self.trait_impls.setdefault((ty, trait, meth), []).append(('', [], ty, name))
                 continue
             hdr = line[C - 1:]
